@@ -72,6 +72,13 @@ fn render_doc(d: &Option<Doc>, indent: &str, out: &mut String) {
         DocStyle::Block => {
             out.push_str(&format!("{indent}#[doc = {}]\n", lit(&format!("{}\n ", d.lines.join("\n")))));
         }
+        DocStyle::BlockThenAttrs => {
+            let k = (d.lines.len() + 1) / 2;
+            out.push_str(&format!("{indent}#[doc = {}]\n", lit(&format!("{}\n ", d.lines[..k].join("\n")))));
+            for l in &d.lines[k..] {
+                out.push_str(&format!("{indent}#[doc = {}]\n", lit(l)));
+            }
+        }
     }
 }
 
